@@ -260,13 +260,21 @@ func (s *Solver) CheckSet(terms []*Term, vars []string, wantModel bool) (SatResu
 	default:
 		atomic.AddInt64(&gStats.Unknown, 1)
 	}
-	if d := os.Getenv("SYMGO_DUMPQ"); d != "" && time.Since(t0) > 15*time.Millisecond {
+	if d := os.Getenv("SYMGO_DUMPQ"); d != "" && time.Since(t0) > dumpThreshold() {
 		if n := atomic.AddInt64(&gDumped, 1); n <= 20 {
 			os.WriteFile(fmt.Sprintf("%s/q%d_%dms.smt2", d, n, time.Since(t0).Milliseconds()), []byte(s.dump(nil, false)), 0o644)
 		}
 	}
 	atomic.AddInt64(&gStats.Nanos, int64(time.Since(t0)))
 	return res, model
+}
+
+// dumpThreshold: SYMGO_DUMPMS=<ms> raises the SYMGO_DUMPQ threshold (default 15 ms) to catch only slow queries.
+func dumpThreshold() time.Duration {
+	if v, err := strconv.Atoi(os.Getenv("SYMGO_DUMPMS")); err == nil && v > 0 {
+		return time.Duration(v) * time.Millisecond
+	}
+	return 15 * time.Millisecond
 }
 
 // parseModel parses "((a #x00) (b #b1) (c true))".
